@@ -25,6 +25,19 @@ Theorem C18_fill_edges : forall w s r, fill w s = Ok r -> clean_edges r.
 Proof. exact fill_edges. Qed.
 Print Assumptions C18_fill_edges.
 
+(* guard form: the boolean guard is exactly the domain on which the model of fill answers, and there the
+   property of fill holds *)
+Theorem C18_fill_partial : forall w s, fill_guard w s = true -> exists r, fill w s = Ok r /\ C18_fill_at w s r.
+Proof. exact C18_fill_partial_lemma. Qed.
+Print Assumptions C18_fill_partial.
+
+(* class-free corollary: any hyphen-free words, none longer than the width, separated by single blanks, are
+   inside the guard; the wrapped text consists of exactly these words *)
+Theorem C18_fill_plain_words : forall w ws, 0 < w -> forallb (plain_word w) ws = true ->
+    exists r, fill w (join [sp] ws) = Ok r /\ lines_le w r /\ words r = ws /\ clean_edges r.
+Proof. exact C18_fill_plain_words_lemma. Qed.
+Print Assumptions C18_fill_plain_words.
+
 (* text that fits on one line comes back unchanged *)
 Theorem C18_fill_fits : forall w s, 0 < w -> one_line_clean s = true -> List.length s <= w -> fill w s = Ok s.
 Proof. exact fill_short_id. Qed.
@@ -48,6 +61,16 @@ Theorem C18_rest_entry : forall w name p ed et edd ls p' tw p1,
                   /\ words tu = concat (map words ls).
 Proof. exact C18_rest_entry_lemma. Qed.
 Print Assumptions C18_rest_entry.
+
+(* the whole docstring, three styles: inside the fragment of fill, emit.docstring with word_wrap on succeeds
+   only if it does with word_wrap off, mutates the IR identically, and the two texts have the same words in the
+   same order - wrapping changes layout only; no word is lost, merged, split or moved *)
+Theorem C18_docstring_words : forall w st edd i tw i1,
+    ir_plain st edd i = true ->
+    emit_docstring w st true edd i = Ok (tw, i1) ->
+    exists tu, emit_docstring w st false edd i = Ok (tu, i1) /\ words tw = words tu.
+Proof. exact C18_docstring_words_lemma. Qed.
+Print Assumptions C18_docstring_words.
 
 (* where nothing needs wrapping the wrapped and the unwrapped docstring are the same bytes (and the same
    post-call IR), for the three styles and every width: every parser reads the same interface *)
